@@ -10,6 +10,8 @@
  */
 #include "cJSON.h"
 #include <string.h>
+#include <float.h>
+#include <math.h>
 #include <stdlib.h>
 typedef struct internal_hooks { void *(*allocate)(size_t size); void (*deallocate)(void *pointer); void *(*reallocate)(void *pointer, size_t size); } internal_hooks;
 static internal_hooks global_hooks = { malloc, free, realloc };
@@ -191,6 +193,19 @@ static cJSON *get_object_item(const cJSON * const object, const char * const nam
     if (e != NULL) { e->valueint = 1; }
     return e;
 }
+/* NUM4: the relative tolerance with an infinite operand */
+static cJSON_bool bad_NUM4_relative(double a, double b)
+{
+    double maxVal = fabs(a) > fabs(b) ? fabs(a) : fabs(b);
+    return (fabs(a - b) <= maxVal * DBL_EPSILON);
+}
+static cJSON_bool good_relative(double a, double b)
+{
+    double maxVal = fabs(a) > fabs(b) ? fabs(a) : fabs(b);
+    if (maxVal > DBL_MAX) { return (a <= b) && (a >= b); }
+    return (fabs(a - b) <= maxVal * DBL_EPSILON);
+}
+cJSON_bool use_relative(double a, double b) { return bad_NUM4_relative(a, b) + good_relative(a, b); }
 static cJSON_bool compare_double(double a, double b) { double d = a - b; if (d < 0) { d = -d; } return d <= 1e-9; }
 cJSON_bool cJSON_Compare(const cJSON * const a, const cJSON * const b, const cJSON_bool case_sensitive)
 {
